@@ -1761,6 +1761,17 @@ def c12_sessions(ctx, vh):
                          ["<enter>", "<up>", "<bs>", "<enter>", "<up>", "p", "<bs>", "<enter>"]):
                 T.append({"cfg": {"cmd": 32, "hcap": rng.choice([16, 64]), "set": set_id, "prompt": 0, "rawproc": rng.random() < 0.5},
                           "steps": scen([line] + tail, {"chunks": [{"m": "w", "t": [111]}]})})
+    # the Enter that submits a help request fails in the sink (first or second operation, once) and is repeated
+    F = []
+    for sc in T[::4]:
+        base = sc["steps"]
+        first_enter = next(i for i, st in enumerate(base) if st["ev"] == "byte" and st["b"] == 13)
+        for at in (1, 2, 3):
+            steps = [dict(st) for st in base[:first_enter + 1]]
+            steps[first_enter]["fail"] = {"at": at, "mode": "once"}
+            steps += scen(["<enter>", "<up>", "<enter>"], {"chunks": [{"m": "w", "t": [111]}]})
+            F.append({"cfg": sc["cfg"], "steps": steps})
+    T += F
     for i, sc in enumerate(T):
         sc["sid"] = 600001 + i
     prof = {"cmd": [16, 40], "hcap": [0, 16, 64], "sets": ALLSETS, "prompts": [0, 1], "steps": (15, 60),
